@@ -354,8 +354,6 @@ func (m *Machine) timePasses(st *State) {
 
 func (m *Machine) makeChanRaw(st *State, site string) *Term {
 	r := m.newRef(st, nil, "chan", false, site)
-	a := m.heapGet(st, "chan.closed0", ArrSort(IntSort, BoolSort))
-	st.heap["chan.closed0"] = m.ctx.Store(a, r, m.ctx.F)
 	return r
 }
 
@@ -370,6 +368,11 @@ func (m *Machine) chanClosed(st *State, ch *Term) *Term {
 	a := m.heapGet(st, "chan.closedByMe", ArrSort(IntSort, BoolSort))
 	mine := c.Select(a, ch)
 	if m.isLocalRef(st, ch) {
+		return mine
+	}
+	if st.closerFresh[ch.id] && !st.closerSpawned {
+		// created here, published only through a field whose sole closer has not been started yet
+		m.trusted["a channel created by init() is closed only by the reader goroutine that Connect starts afterwards (Connect is called once per BaseClient)"] = true
 		return mine
 	}
 	if m.ownedChans[ch.id] {
@@ -535,6 +538,11 @@ func (m *Machine) goStmt(st *State, fr *Frame, x *ssa.Go) {
 	name := "go"
 	if fn := x.Call.StaticCallee(); fn != nil {
 		name = "go:" + relName(fn)
+		for _, owner := range m.P.Contracts.Closers {
+			if owner == relName(fn) {
+				defer func() { st.closerSpawned = true }()
+			}
+		}
 		if mc, ok := x.Call.Value.(*ssa.MakeClosure); ok {
 			v := m.val(st, fr, mc).(*Term)
 			m.escapeRef(st, v)
@@ -546,6 +554,34 @@ func (m *Machine) goStmt(st *State, fr *Frame, x *ssa.Go) {
 		name = "go:" + m.ts.typeName(x.Call.Value.Type()) + "." + x.Call.Method.Name()
 	}
 	m.addEvent(st, name, args, nil)
+	// the spawned function's precondition must hold at the spawn
+	if fn := x.Call.StaticCallee(); fn != nil {
+		if fc := m.P.Contracts.Funcs[relName(fn)]; fc != nil && len(fc.Requires) > 0 {
+			var fvals []Value
+			if mc, ok := x.Call.Value.(*ssa.MakeClosure); ok {
+				for _, b := range mc.Bindings {
+					fvals = append(fvals, m.val(st, fr, b))
+				}
+			}
+			bind := m.bindParams(st, fn, args, fvals)
+			for _, l := range fc.Lets {
+				if v, ok := m.evalClause(st, l, bind); ok {
+					bind[l.Name] = v
+				}
+			}
+			for i, r := range fc.Requires {
+				v, ok := m.evalClause(st, r, bind)
+				if !ok {
+					continue
+				}
+				tags := r.Tags
+				if len(tags) == 0 {
+					tags = fc.Props
+				}
+				m.oblige(st, fr, "pre", fmt.Sprintf("go.%s.%d", relName(fn), i), v.(*Term), tags, "precondition of spawned "+relName(fn)+": "+r.Raw+"  ["+r.Line+"]")
+			}
+		}
+	}
 }
 
 // ---------- context ----------
